@@ -78,7 +78,9 @@ func makeMux(dst string, option *ClientOption, dialFn dialFn) *mux {
 		return func(ctx context.Context) (w wire) {
 			w, err := pipeFn(ctx, connFn, option)
 			if err != nil {
-				dead.error.Store(&errs{error: err})
+				if old := dead.error.Load(); old != errClosed {
+					dead.error.CompareAndSwap(old, &errs{error: err}) // once the mux is closed the dead wire keeps reporting ErrClosing
+				}
 				w = dead
 			}
 			return w
@@ -202,6 +204,14 @@ func (m *mux) _pipe(ctx context.Context, i uint16) (w wire, err error) {
 	return w, err
 }
 
+// redial makes the next call on slot i dial a new wire in place of the broken wire w.
+// The dead wire only sits in a slot after Close, and a closed mux must stay closed.
+func (m *mux) redial(i uint16, w wire) {
+	if w != m.dead {
+		m.muxwires[i].wire.CompareAndSwap(w, m.init)
+	}
+}
+
 func (m *mux) pipe(ctx context.Context, i uint16) wire {
 	w, _ := m._pipe(ctx, i)
 	return w // this should never be nil
@@ -297,7 +307,7 @@ func (m *mux) pipeline(ctx context.Context, cmd Completed) (resp RedisResult) {
 	slot := slotfn(len(m.muxwires), cmd.Slot(), cmd.NoReply())
 	wire := m.pipe(ctx, slot)
 	if resp = wire.Do(ctx, cmd); isBroken(resp.NonRedisError(), wire) {
-		m.muxwires[slot].wire.CompareAndSwap(wire, m.init)
+		m.redial(slot, wire)
 	}
 	return resp
 }
@@ -308,7 +318,7 @@ func (m *mux) pipelineMulti(ctx context.Context, cmd []Completed) (resp *redisre
 	resp = wire.DoMulti(ctx, cmd...)
 	for _, r := range resp.s {
 		if isBroken(r.NonRedisError(), wire) {
-			m.muxwires[slot].wire.CompareAndSwap(wire, m.init)
+			m.redial(slot, wire)
 			return resp
 		}
 	}
@@ -320,7 +330,7 @@ func (m *mux) DoCache(ctx context.Context, cmd Cacheable, ttl time.Duration) Red
 	wire := m.pipe(ctx, slot)
 	resp := wire.DoCache(ctx, cmd, ttl)
 	if isBroken(resp.NonRedisError(), wire) {
-		m.muxwires[slot].wire.CompareAndSwap(wire, m.init)
+		m.redial(slot, wire)
 	}
 	return resp
 }
@@ -379,7 +389,7 @@ func (m *mux) doMultiCache(ctx context.Context, slot uint16, multi []CacheableTT
 	resps = wire.DoMultiCache(ctx, multi...)
 	for _, r := range resps.s {
 		if isBroken(r.NonRedisError(), wire) {
-			m.muxwires[slot].wire.CompareAndSwap(wire, m.init)
+			m.redial(slot, wire)
 			return resps
 		}
 	}
@@ -391,7 +401,7 @@ func (m *mux) Receive(ctx context.Context, subscribe Completed, fn func(message 
 	wire := m.pipe(ctx, slot)
 	err := wire.Receive(ctx, subscribe, fn)
 	if isBroken(err, wire) {
-		m.muxwires[slot].wire.CompareAndSwap(wire, m.init)
+		m.redial(slot, wire)
 	}
 	return err
 }
@@ -411,6 +421,9 @@ func (m *mux) Store(w wire) {
 }
 
 func (m *mux) Close() {
+	if dead, ok := m.dead.(*pipe); ok {
+		dead.error.Store(errClosed) // a failed dial may have left its own error on the dead wire
+	}
 	for i := 0; i < len(m.muxwires); i++ {
 		if prev := m.muxwires[i].wire.Swap(m.dead).(wire); prev != m.init && prev != m.dead {
 			prev.Close()
@@ -423,6 +436,9 @@ func (m *mux) Close() {
 func (m *mux) Addr() string {
 	return m.dst
 }
+
+// errClosed is what the dead wire of a closed mux reports; unlike errClosing it is never replaced by a dial error.
+var errClosed = &errs{error: ErrClosing}
 
 func isBroken(err error, w wire) bool {
 	return err != nil && err != ErrClosing && w.Error() != nil
